@@ -551,6 +551,7 @@ pub fn run_sweep(opts: &Opts) -> i32 {
     let dir = opts.str("out", "/verif/.build/cases/sweep");
     let seed = opts.u64("seed", 1);
     let n = opts.u64("n", if opts.thorough() { 48 } else { 16 });
+    let force_cache = opts.u64("cache", 0) == 1;
     std::fs::create_dir_all(format!("{dir}/dev")).unwrap();
     let now_ns = || std::time::SystemTime::now().duration_since(std::time::UNIX_EPOCH).unwrap().as_nanos() as u64;
     const MARGIN: u64 = 150_000_000; // 150 ms either side of the expiry instant is not judged
@@ -560,12 +561,14 @@ pub fn run_sweep(opts: &Opts) -> i32 {
         handles.push(std::thread::spawn(move || {
             let mut rng = Rng::new(seed.wrapping_mul(7919).wrapping_add(case));
             let persistent = case % 2 == 1;
+            // half of the runs have no sweeper: expiry is then enforced by the lazy check of each read alone
+            let sweeper_on = case % 8 < 4;
             let path = format!("{dir}/dev/sweep_{case}.feox");
             let _ = std::fs::remove_file(&path);
             let open = |path: &str| {
                 let mut b = FeoxStore::builder().hash_bits(6).no_memory_limit().enable_ttl(true);
                 if persistent {
-                    b = b.device_path(path.to_string()).file_size(512 * 4096).enable_caching(case % 4 == 1);
+                    b = b.device_path(path.to_string()).file_size(512 * 4096).enable_caching(case % 4 == 1 || force_cache);
                 }
                 b.build().map(Arc::new)
             };
@@ -573,6 +576,7 @@ pub fn run_sweep(opts: &Opts) -> i32 {
                 Ok(s) => s,
                 Err(e) => return (format!("note sweep case={case}"), format!("FAIL cannot-open-store {e}")),
             };
+            if sweeper_on {
             store.start_ttl_sweeper(Some(TtlConfig {
                 sample_size: 20,
                 expiry_threshold: 0.1,
@@ -581,6 +585,7 @@ pub fn run_sweep(opts: &Opts) -> i32 {
                 sleep_interval: Duration::from_millis(rng.range(10, 80)),
                 enabled: true,
             }));
+            }
             // key -> (value, earliest expiry, latest expiry)  (0,0 = never)
             let mut keys: Vec<(Vec<u8>, Vec<u8>, u64, u64)> = Vec::new();
             let nk = rng.range(6, 30);
@@ -601,7 +606,7 @@ pub fn run_sweep(opts: &Opts) -> i32 {
                 let (lo, hi) = if ttl == 0 { (0, 0) } else { (tb + ttl * 1_000_000_000, ta + ttl * 1_000_000_000) };
                 keys.push((k, v, lo, hi));
             }
-            if persistent && rng.chance(1, 2) {
+            if persistent && (rng.chance(1, 2) || !sweeper_on) {
                 let _ = store.flush();
             }
             // TTL changes before anything expires
@@ -695,7 +700,7 @@ pub fn run_sweep(opts: &Opts) -> i32 {
                 }
             }
             let _ = std::fs::remove_file(&path);
-            (format!("note sweep case={case} persistent={} keys={} reads={reads}", persistent as u8, keys.len()), verdict)
+            (format!("note sweep case={case} persistent={} sweeper={} keys={} reads={reads}", persistent as u8, sweeper_on as u8, keys.len()), verdict)
         }));
     }
     let mut out = Out::new(&dir, "s0");
